@@ -12,6 +12,9 @@ from . import tlc as _tlc
 ROOT = os.path.dirname(os.path.dirname(os.path.dirname(os.path.abspath(__file__))))
 REPO = os.environ.get("NV_REPO", "/repo")
 DATA = os.path.join(REPO, "tests", "data")
+# where evidence/ and replays/ are written: /verif itself, except for mutant runs (tools/mutants.py) which must not overwrite
+# the evidence of the real tree
+OUT = os.environ.get("NV_OUT", ROOT)
 
 
 class Machinery(Exception):
@@ -167,7 +170,7 @@ class Ctx:
         for f in findings:
             if f.get("status") == "fixed":
                 self.notes.append("fixed: property=%s %s %s" % (self.pid, f.get("commit", "?"), f["what"]))
-        rdir = os.path.join(ROOT, "replays")
+        rdir = os.path.join(OUT, "replays")
         os.makedirs(rdir, exist_ok=True)
         import glob as _glob
         for old in _glob.glob(os.path.join(rdir, "%s-%s-*.json" % (self.pid, self.tier))):
@@ -219,8 +222,8 @@ class Ctx:
             "wall_s": round(self.elapsed(), 2),
             "violations": len(violations),
         }
-        os.makedirs(os.path.join(ROOT, "evidence"), exist_ok=True)
-        with open(os.path.join(ROOT, "evidence", self.pid + ".json"), "w") as fh:
+        os.makedirs(os.path.join(OUT, "evidence"), exist_ok=True)
+        with open(os.path.join(OUT, "evidence", self.pid + ".json"), "w") as fh:
             json.dump(ev, fh, indent=1, default=str)
         print("%s %s: states=%d transitions=%d traces=%d evaluations=%d violations=%d known=%d drift=%d wall=%.1fs"
               % (self.pid, self.tier, self.states, self.transitions, self.traces, self.evaluations,
